@@ -181,20 +181,7 @@ func vname(v uint16) string {
 }
 
 func recordLevel(c *ev.Ctx) {
-	suites := tls.VerifC25Suites()
-	var cases []recCase
-	for _, s := range suites {
-		if s.TLS13 {
-			cases = append(cases, recCase{s, tls.VersionTLS13})
-			continue
-		}
-		for _, v := range []uint16{tls.VersionTLS10, tls.VersionTLS11, tls.VersionTLS12} {
-			if s.TLS12Only && v != tls.VersionTLS12 {
-				continue
-			}
-			cases = append(cases, recCase{s, v})
-		}
-	}
+	cases := recCases()
 	c.Set("record_level_suite_version_pairs", len(cases))
 	lens := []int{0, 1, 7, 8, 15, 16, 17, 31, 32, 33, 47, 255, 256, 1000, 16383, 16384}
 	seqs := []uint64{0, 1, 0x80, 1 << 32, 1<<40 + 5, 0xfedcba9876f5}
@@ -229,21 +216,11 @@ func recordLevel(c *ev.Ctx) {
 		u := units[i]
 		s := u.rc.S
 		v := u.rc.Version
-		r := fx.NewRand(fmt.Sprintf("c25-%x-%x", s.ID, v))
-		key := make([]byte, s.KeyLen)
-		iv := make([]byte, s.IVLen)
-		mk := make([]byte, s.MacLen)
-		secret := make([]byte, 48)
-		r.Read(key)
-		r.Read(iv)
-		r.Read(mk)
-		r.Read(secret)
+		key, iv, mk, secret := caseKeys(s, v) // TLS 1.3: key and iv derived by the reference (RFC 8446 7.3)
 		if s.TLS13 {
-			secret = secret[:32]
-			if s.ID == tls.TLS_AES_256_GCM_SHA384 {
-				secret = append(secret, secret[:16]...)
+			if zk, ziv := tls.VerifC25TrafficKey(s.ID, secret); !bytes.Equal(zk, key) || !bytes.Equal(ziv, iv) {
+				c.Violation("TLS 1.3 traffic key/iv differ from HKDF-Expand-Label(secret, key|iv)", map[string]any{"suite": fmt.Sprintf("%04x", s.ID)})
 			}
-			key, iv = tls.VerifC25TrafficKey(s.ID, secret)
 		}
 		payload := make([]byte, u.l)
 		fx.NewRand("payload").Read(payload)
@@ -284,6 +261,22 @@ func recordLevel(c *ev.Ctx) {
 			hists[w]["ref-open-mismatch"]++
 		} else {
 			hists[w]["ref-open-ok"]++
+		}
+		// nonce construction. Implicit-nonce AEADs (RFC 7905, RFC 8446 5.3): the reference opener computes
+		// iv XOR seq itself, so ref-open-ok above IS the assertion. RFC 5288 suites carry 8 explicit bytes which the
+		// opener reads from the record: they must be the sequence number (documented in halfConn.encrypt; distinct
+		// sequence numbers then give distinct nonces under one key).
+		if s.Kind == "aead" && !s.TLS13 && s.IVLen == 4 {
+			var sb [8]byte
+			binary.BigEndian.PutUint64(sb[:], u.seq)
+			if len(rec) < 13 || !bytes.Equal(rec[5:13], sb[:]) {
+				c.Violation(fmt.Sprintf("explicit GCM nonce is not the record sequence number %s", vname(v)), wit(fmt.Sprintf("explicit=%x seq=%x", rec[5:min(13, len(rec))], sb), rec))
+				hists[w]["explicit-nonce-NOT-seq"]++
+			} else {
+				hists[w]["explicit-nonce-is-seq"]++
+			}
+		} else if s.Kind == "aead" && err == nil {
+			hists[w]["implicit-nonce-is-iv-xor-seq"]++
 		}
 		rd := mk2(true)
 		got, gt, err := rd.Decrypt(rec)
